@@ -24,5 +24,5 @@ def main(tier: str) -> int:
         "the meta:generator stamp is exempt",
     ]
     sources = ["generated"] * 12 + list(pd.TEMPLATES) + [str(p) for p in pd.sample_files()]
-    run_package_property(run, tier, prefixes=("C11:",), sources=sources)
+    run_package_property(run, tier, prefixes=("C11:", "C03:flat-xml"), sources=sources)
     return run.finish()
